@@ -54,6 +54,13 @@ func runC16(r *Run) {
 	r.Rule("C16.R5")
 	c16Matcher(r)
 
+	// the migration controller's use of the fetcher: a failed submitter must make the pass
+	// fail (rule set of C20.R4), otherwise the tail after the failure is never delivered
+	r.Shared("C16.R7", func() {
+		r.Rule("C20.R4")
+		c20FetchTail(r)
+	})
+
 	r.Rule("C16.R6")
 	r.LockCheck(lockTable["Fetcher"])
 	c16Atomics(r)
@@ -432,7 +439,39 @@ func c16Indices(r *Run) {
 	}
 }
 
+func c16CertErr(r *Run) {
+	fn := r.Fn("(*scanner.Scanner).isCertErrorFatal")
+	if fn == nil {
+		return
+	}
+	// nil ⇒ false; not fatal (x509.IsFatal false) ⇒ false (entry still delivered); fatal ⇒ true
+	_, err := r.D.Table(fn, nil, nil, []RuleAtom{{Name: "err", Pat: "nil?p1"}, {Name: "fatal", Pat: "x509.IsFatal(p1)"}}, func(val map[string]string, reach *Reach, s Sigma) {
+		r.Valuations++
+		if val["err"] == "nil" && val["fatal"] == "T" {
+			return // infeasible: IsFatal(nil) is false
+		}
+		want := "false"
+		if val["err"] == "non" && val["fatal"] == "T" {
+			want = "true"
+		}
+		var got []string
+		for _, ret := range reachableReturns(fn, reach) {
+			got = append(got, r.D.D(ret.Results[0]))
+		}
+		r.Check("isCertErrorFatal[err="+val["err"]+",IsFatal="+val["fatal"]+"]", len(got) == 1 && got[0] == want, r.FnPos(fn), fmt.Sprintf("returns %v, statement wants %s (entries with only non-fatal parse errors are still delivered)", got, want))
+	})
+	if err != nil {
+		r.Fail("isCertErrorFatal", r.FnPos(fn), "undecided: "+err.Error()+" — the fatal / non-fatal distinction must be made by x509.IsFatal on the parser's error")
+	}
+	if me := r.Fn("(*scanner.Scanner).processMatcherEntry"); me != nil {
+		if c := r.OneCall(me, "processMatcherEntry:error-class", "(*scanner.Scanner).isCertErrorFatal"); c != nil {
+			r.ExpectArg(c, "processMatcherEntry:error-class.err", 1, "(*ct.RawLogEntry).ToLogEntry(*)#1")
+		}
+	}
+}
+
 func c16Matcher(r *Run) {
+	c16CertErr(r)
 	if fn := r.Fn("(*scanner.Scanner).processMatcherEntry"); fn != nil {
 		fc := asInstrs(CallsTo(fn, "dyn(p3)"))
 		fp := asInstrs(CallsTo(fn, "dyn(p4)"))
